@@ -24,6 +24,11 @@ Oracle (all reads use ``__dict__`` so that judging never loads anything):
 * the composite attribute of a merged node, read by attribute access, agrees with its loaded
   column attributes (sources with a composite object, with directly written columns, built
   from column values, or detached after a flush that dropped the cached composite);
+* target pre-states {identity absent, present clean, present with unflushed changes, present
+  expired / partially expired, unrelated pending + dirty objects} x load {True, False}: at
+  every stage ``session.dirty`` lists exactly the instances whose ``state.modified`` is set,
+  after a flush dirty/new/deleted are empty, and a final ``commit()`` succeeds (fixture
+  restored afterwards);
 * the source graph is left untouched and unattached;
 * after flushing, merging the same source again returns the same instances, flags no
   modification (``Session.is_modified``), and the following flush emits no
@@ -56,7 +61,9 @@ META = {
     "exhaustive": {"quick": False, "thorough": False},
     "require": ["merges", "attrs_copied_checked", "rel_nodes_checked", "second_merges", "load_false_merges",
                 "load_false_sql_free", "held_instance_cases", "partial_load_sources", "pending_results",
-                "dml_free_second_flushes", "composite_values_checked", "token_sources", "flushed_sources"],
+                "dml_free_second_flushes", "composite_values_checked", "token_sources", "flushed_sources",
+                "bookkeeping_checks", "commits_after_merge", "dirty_held_targets_load_False",
+                "dirty_held_targets_load_True", "targets_with_unrelated_pending_and_dirty"],
     "assumptions": ["reading __dict__ of mapped instances shows exactly the loaded attributes"],
 }
 
@@ -98,6 +105,16 @@ class Rig:
             "all": [orm.selectinload(U.addresses), orm.selectinload(U.keywords), orm.joinedload(U.profile),
                     orm.undefer(U.bio)],
         }[name]
+
+    def restore(self):
+        """bring the fixture back after a case that committed"""
+        md = self.rig.BaseM.metadata
+        rows = self.rig.zoo_rows()
+        with self.engine.begin() as c:
+            for t in reversed(md.sorted_tables):
+                c.execute(t.delete())
+            for t in md.sorted_tables:
+                c.execute(t.insert(), rows[t.name])
 
     def raw(self, sql):
         with self.engine.connect() as c:
@@ -189,9 +206,13 @@ def gen_spec(rng):
         spec["edits"] = rng.sample(["text", "user_name"], rng.randint(0, 2))
     # identity token of the source's identity key (None = the default)
     spec["token"] = rng.choice([None, None, "tokA"]) if spec["src"] == "detached" else None
-    spec["target"] = rng.choice(["empty", "empty", "held", "held_modified"])
+    # pre-state of the target session with respect to the merged identity
+    spec["target"] = rng.choice(["empty", "empty", "held", "held_modified", "held_modified", "held_expired",
+                                 "held_part_expired", "other_pending"])
     clean_detached = spec["src"] == "detached" and not spec["edits"]
     spec["load"] = not (clean_detached and rng.random() < 0.5)
+    # end the case with a real commit() (the fixture is restored afterwards)
+    spec["commit"] = (not spec["load"]) or rng.random() < 0.35
     return spec
 
 
@@ -346,13 +367,27 @@ def run_case(R, spec, sample=False):
         held = None
         held_before = None
         rid = spec["rid"]
-        if spec["target"] in ("held", "held_modified") and rid is not None:
+        if spec["target"] == "other_pending":
+            # unrelated pending and dirty objects live in the session while the merge happens
+            sess.add(M.Keyword(word=R.uniq("pend")))
+            other = sess.get(M.Keyword, 2)
+            other.word = R.uniq("dirty")
+            ctx.count("targets_with_unrelated_pending_and_dirty")
+        if spec["target"].startswith("held") and rid is not None:
             held = sess.get(cls, rid, identity_token=spec.get("token"))
             if held is not None and cls is M.User and "px" in held.__dict__:
                 held.pos        # the composite is cached on the instance the session holds
             if held is not None:
                 ctx.count("held_instance_cases")
-                if spec["target"] == "held_modified" and spec["load"]:
+                if spec["target"] == "held_expired":
+                    sess.expire(held)
+                elif spec["target"] == "held_part_expired":
+                    sess.expire(held, ["name"] if cls is M.User else ["email"] if cls is M.Address else ["text"])
+                if spec["target"] == "held_modified":
+                    # unflushed local change on the instance the session holds (load=True keeps it
+                    # for attributes the source has not loaded; load=False discards it: the result
+                    # of merge(load=False) is clean by contract)
+                    ctx.count("dirty_held_targets_load_%s" % spec["load"])
                     if cls is M.User:
                         held.age = 999
                         held.name = "local"
@@ -368,6 +403,27 @@ def run_case(R, spec, sample=False):
                 r = c.execute(sa.select(t).where(t.c.id == rid)).mappings().first()
                 dbrow = dict(r) if r else {}
         pre_new = len(sess.new)
+        held_was_expired = held is not None and bool(sa.inspect(held).expired)
+
+        def check_books(stage, after_flush=False):
+            """session.dirty / state.modified / new / deleted must tell one story"""
+            ctx.count("bookkeeping_checks")
+            for o in list(sess.dirty):
+                if not sa.inspect(o).modified:
+                    vio("session-dirty-lists-unmodified-instance",
+                        "%s: %s is in session.dirty but state.modified is False (is_modified=%s)" % (
+                            stage, type(o).__name__, sess.is_modified(o)))
+                    return False
+            for st_ in list(sess.identity_map.all_states()):
+                o = st_.obj()
+                if o is not None and st_.modified and o not in sess.dirty and o not in sess.deleted:
+                    vio("modified-instance-missing-from-session-dirty", "%s: %s" % (stage, type(o).__name__))
+                    return False
+            if after_flush and (list(sess.dirty) or list(sess.new) or list(sess.deleted)):
+                vio("session-not-clean-after-flush", "%s: dirty=%d new=%d deleted=%d" % (
+                    stage, len(sess.dirty), len(sess.new), len(sess.deleted)))
+                return False
+            return True
 
         # ---------------- the merge -----------------------------------------
         mark = R.spy.mark()
@@ -450,7 +506,8 @@ def run_case(R, spec, sample=False):
                 want = M.Point(md["px"], md["py"])
                 got = m_node.pos
                 if got != want and not (got is None and want == M.Point(None, None)):
-                    vio("composite-value-disagrees-with-columns-after-merge",
+                    vio("composite-value-disagrees-with-columns-after-merge" + (
+                        "-onto-expired-instance" if m_node is held and held_was_expired else ""),
                         "%s.pos is %r while px, py = %r, %r" % (path, got, md["px"], md["py"]))
             for rel in sa.inspect(s_node).mapper.relationships:
                 if rel.key not in sd:
@@ -518,13 +575,19 @@ def run_case(R, spec, sample=False):
         # ---------------- load=False flags nothing -------------------------
         merged_nodes = [x for x in mapping.values()]
         if not load:
-            flagged = [type(o).__name__ for o in merged_nodes if sa.inspect(o).modified or sess.is_modified(o)]
+            flagged = [type(o).__name__ for o in merged_nodes if sa.inspect(o).modified or sess.is_modified(o)
+                       or o in sess.dirty
+                       or any(sa.inspect(o).attrs[k].history.has_changes() for k in col_keys(sa, o) if k in o.__dict__)]
             if flagged or len(sess.new) != pre_new or sess.deleted:
-                vio("load-false-flagged-changes", "modified=%s new=%d deleted=%d" % (flagged, len(sess.new), len(sess.deleted)))
+                vio("load-false-flagged-changes", "modified/dirty/history=%s new=%d deleted=%d" % (flagged, len(sess.new), len(sess.deleted)))
+            check_books("after merge(load=False)")
             mark2 = R.spy.mark()
+            unrelated = spec["target"] == "other_pending"
             sess.flush()
-            if R.sql_since(mark2):
+            if R.sql_since(mark2) and not unrelated:
                 vio("load-false-flush-emitted-sql", "flush after merge(load=False) emitted %s" % R.sql_since(mark2)[:2])
+            check_books("after flush following merge(load=False)", after_flush=True)
+            mark2 = R.spy.mark()
             # a second load=False merge is idempotent as well
             m2 = sess.merge(src, load=False)
             if m2 is not m:
@@ -541,9 +604,11 @@ def run_case(R, spec, sample=False):
                 snap1 = snapshot(sa, nodes1)
                 mark2 = R.spy.mark()
                 ctx.count("second_merges")
+                check_books("after flush following merge", after_flush=True)
                 m2 = sess.merge(src)
                 if m2 is not m:
                     vio("second-merge-returned-other-instance", "second merge returned another instance")
+                check_books("after second merge")
                 mapping2 = {}
                 for s_node in src_nodes:
                     pass
@@ -563,6 +628,22 @@ def run_case(R, spec, sample=False):
                         if k in d2 and d2[k] != v:
                             vio("second-merge-changed-state", "%s.%s %r -> %r" % (c1, k, v, d2[k]))
                             break
+        if not violated:
+            check_books("end of case")
+        # ---------------- commit works ---------------------------------------
+        if spec.get("commit"):
+            if not violated:
+                ctx.count("commits_after_merge")
+                try:
+                    sess.commit()
+                except Exception as e:
+                    sess.rollback()
+                    vio("commit-after-merge-raised-%s" % type(e).__name__, "%s: %s" % (type(e).__name__, str(e)[:200]))
+                else:
+                    if list(sess.dirty) or list(sess.new) or list(sess.deleted):
+                        vio("session-not-clean-after-commit", "dirty=%d new=%d" % (len(sess.dirty), len(sess.new)))
+            sess.rollback()
+            R.restore()
         nontriv = len(src_nodes) >= 2 or changed[0]
         ctx.case(spec, nontrivial=nontriv)
         ctx.seen("target_x_load", "%s/%s/%s/%s" % (spec["root"], spec["src"], spec["target"], spec["load"]))
